@@ -38,8 +38,8 @@ RULE = ("cases = (dataset, 1-2 rule variables, RDR tree of <= 7 nodes with per-n
 BUDGET = {"quick": (8, 700), "thorough": (16, 5000)}
 EXHAUSTIVE_NOTE = {"quick": "all RDR tree shapes with <= 3 nodes x condition assignments from a pool of 4 x 2 datasets",
                    "thorough": "all RDR tree shapes with <= 4 nodes x condition assignments from a pool of 4 x 3 datasets"}
-ASSUMPTIONS = ["a rule has at most one refinement block directly beneath it (further exceptions are alternatives of that "
-               "refinement)", "every node has a conclusion", "branch conditions mention only variables the base binds",
+ASSUMPTIONS = ["when a rule has two refinement blocks of its own their conditions are mutually exclusive (which of two "
+               "applicable refinements of the same rule wins is not stated)", "every node has a conclusion", "branch conditions mention only variables the base binds",
                "next_rule and Set are not part of the statement"]
 
 
@@ -66,6 +66,17 @@ def _branch_cond(draw, ctx, nv, extra=None):
     return c
 
 
+def _maybe_second_refinement(draw, ctx, nv, node, budget):
+    """A rule may get a second refinement of its own (a further `with refinement(..)` block in the same rule block).
+    Its condition is made exclusive with the first one's (c2 and not c1), and the first one has no alternative, so that
+    at most one of the two applies and the prescribed conclusion is unambiguous."""
+    r1 = node["ref"]
+    if budget[0] > 0 and r1 is not None and r1["alt"] is None and not r1.get("extra") and chance(draw, 1, 3):
+        c2 = _branch_cond(draw, ctx, nv)
+        node["ref2"] = {"cond": ["and", "nary", [c2, ["not", "not_", r1["cond"]]]], "ref": None, "alt": None, "extra": False}
+        budget[0] -= 1
+
+
 def _tree(draw, ctx, nv, depth, budget, extra=None):
     """budget: mutable [remaining nodes]."""
     use_extra = extra is not None and chance(draw, 1, 2)
@@ -75,6 +86,7 @@ def _tree(draw, ctx, nv, depth, budget, extra=None):
     if depth > 0:
         if budget[0] > 0 and chance(draw, 1, 2):
             node["ref"] = _tree(draw, ctx, nv, depth - 1, budget, extra)
+            _maybe_second_refinement(draw, ctx, nv, node, budget)
         # a branch that joins the extra variable gets no alternative of its own: whether such an alternative applies
         # per base assignment or per value of the joined variable is not stated, so that shape is not generated
         if budget[0] > 0 and not use_extra and chance(draw, 1, 2):
@@ -107,6 +119,7 @@ def _case(draw, tier):
     budget[0] -= 1
     if chance(draw, 2, 3):
         root["ref"] = _tree(draw, ctx, nv, 2, budget, extra)
+        _maybe_second_refinement(draw, ctx, nv, root, budget)
     if budget[0] > 0 and chance(draw, 2, 3):
         root["alt"] = _tree(draw, ctx, nv, 2, budget, extra)
     return {"ents": recs, "doms": doms, "vars": vars_, "tree": root, "dom_kind": "list", "nv": nv, "extra": extra,
@@ -185,6 +198,7 @@ def _number(tree):
         n["id"] = len(out)
         out.append(n)
         go(n["ref"])
+        go(n.get("ref2"))
         go(n["alt"])
     go(tree)
     return out
@@ -195,6 +209,8 @@ def fire(node, env, info):
         return None
     if A.eval_cond(node["cond"], env):
         r = fire(node["ref"], env, info)
+        if r is None:
+            r = fire(node.get("ref2"), env, info)
         return r if r is not None else node["id"]
     return fire(node["alt"], env, info)
 
@@ -213,6 +229,9 @@ def _emit(node, views, V, case, is_root=False):
         if node["ref"] is not None:
             with refinement(build_cond(node["ref"]["cond"], V)):
                 _emit(node["ref"], views, V, case)
+        if node.get("ref2") is not None:
+            with refinement(build_cond(node["ref2"]["cond"], V)):
+                _emit(node["ref2"], views, V, case)
 
     def do_alt():
         # an alternative chain (alt of alt of ...) can be spelled nested inside the previous alternative's block or as
@@ -288,7 +307,7 @@ def check(case) -> Outcome:
             return fire_rows(node["alt"], env)
         out = []
         for e in exts:
-            r = fire_rows(node["ref"], e)
+            r = fire_rows(node["ref"], e) or fire_rows(node.get("ref2"), e)
             out += r if r else [(node["id"], e)]
         return out
 
@@ -311,6 +330,8 @@ def check(case) -> Outcome:
             feats.append("ref_under_ref")
         if root["ref"]["alt"] is not None:
             feats.append("alt_under_ref")
+    if any(n.get("ref2") is not None for n in nodes):
+        feats.append("two_refinements_of_one_rule")
     if root["alt"] is not None:
         feats.append("alt_under_base")
         if root["alt"]["ref"] is not None:
@@ -371,6 +392,8 @@ def _r_tree(n):
         d["concludes_over"] = "extra variable"
     if n["ref"] is not None:
         d["refinement"] = _r_tree(n["ref"])
+    if n.get("ref2") is not None:
+        d["second_refinement"] = _r_tree(n["ref2"])
     if n["alt"] is not None:
         d["alternative"] = _r_tree(n["alt"])
     return d
